@@ -49,15 +49,17 @@ func (Prop) Refine(v *core.Violation, t, s []uint32, exec func(t, s []uint32) (*
 // scenario
 
 type scenario struct {
-	ids        []cedar.PolicyID
-	texts      []string
-	pols       []*cedar.Policy
-	ents       types.EntityGetter
-	entsStr    string
-	req        batch.Request
-	names      []types.String // variable names, sorted
-	nested     bool           // some variable is nested in the context
-	customIter bool
+	ids         []cedar.PolicyID
+	texts       []string
+	pols        []*cedar.Policy
+	ents        types.EntityGetter
+	entsStr     string
+	req         batch.Request
+	names       []types.String // variable names, sorted
+	nested      bool           // some variable is nested in the context
+	customIter  bool
+	reparse     int // index of a policy re-parsed in place after it was added (-1: none)
+	reparseText string
 }
 
 var special = []string{
@@ -162,6 +164,12 @@ func genScenario(r *core.Run) *scenario {
 		sc.entsStr = string(b)
 	}
 	sc.customIter = r.T.Intn(3) == 2
+	sc.reparse = -1
+	if len(sc.ids) > 0 && r.T.Intn(6) == 5 {
+		sc.reparse = r.T.Intn(len(sc.ids))
+		sc.reparseText = special[r.T.Intn(len(special))]
+		sc.texts[sc.reparse] += "   // re-parsed in place after Add as: " + sc.reparseText
+	}
 	base := g.Request()
 	pool := map[types.String]bool{"p": true, "a": true, "r": true, "c": true, "d": true}
 	uidList := func(k int, actions bool) []types.Value {
@@ -350,6 +358,14 @@ func (sc *scenario) policies(r *core.Run) cedar.PolicyIterator {
 	ps := cedar.NewPolicySet()
 	for i, id := range sc.ids {
 		ps.Add(id, sc.pols[i])
+	}
+	// a policy object that is already in the set may be re-parsed in place by its owner
+	// (Policy.UnmarshalCedar / UnmarshalJSON overwrite the receiver): both authorizers must
+	// see the new policy
+	if sc.reparse >= 0 && sc.reparse < len(sc.ids) {
+		if p := ps.Get(sc.ids[sc.reparse]); p != nil {
+			_ = p.UnmarshalCedar([]byte(sc.reparseText))
+		}
 	}
 	return ps
 }
